@@ -24,6 +24,8 @@ def cases(draw):
     opts = {'repeat': draw(st.sampled_from([1, 1, 1, 2, 3])),
             'shuffle': draw(st.one_of(st.none(), st.integers(0, 10 ** 6))),
             'verbose': draw(st.integers(0, 2))}
+    # (with -x the run ends after the first bad test; that test, too, is bracketed completely)
+    opts['stop'] = draw(st.integers(0, 5)) == 0
     # post-mortem mode runs tests through a different loop (startTest / test.debug() / stopTest); pdb gets 'c' on stdin
     if draw(st.sampled_from([False] * 5 + [True])):
         opts['post_mortem'] = True
@@ -78,6 +80,8 @@ class InProc(Part):
                 viol += traceana.check_per_test_hooks(w, evs, skl)
         # an aborted run is C04's business, but it truncates the history: label it
         labels = ['hooks-that-compare-equal'] if any(L.get('eq_hooks') for L in spec['layers']) else []
+        if case['opts'].get('stop'):
+            labels.append('-x')
         if case['opts'].get('nested'):
             labels.append('nested-run')
         if run.exc is not None:
